@@ -178,6 +178,7 @@ class IdsLeg(object):
             return {"gtf": gtf, "records": recs, "spec": draw(st.sampled_from(SPECS)), "split": draw(st.sampled_from([0, 0, 1, 2, n // 2])), "split2": draw(st.sampled_from([0, n // 2 + 1, n - 1])),
                     "replace_tail": draw(st.booleans()),
                     "file_db": draw(st.booleans()),
+                    "delete_reopen": draw(st.booleans()), "victim": draw(st.integers(0, 9)),
                     "probe": draw(st.sampled_from(["x", "", "%", "_", "UP", "low", "pre", "sp"]))}
 
         def ok(c):
@@ -204,6 +205,8 @@ class IdsLeg(object):
             labels.append("auto-numbered")
         if case.get("split") and 0 < case["split"] < len(case["records"]):
             labels.append("tail-through-update")
+            if case.get("delete_reopen") and case.get("file_db"):
+                labels.append("delete-and-reopen-before-the-tail")
         return auto or multi or case["spec"] in ("ID,Name", "Name,ID", "Alias,ID", "dict", "dict2"), labels
 
     def check(self, case, ctx):
@@ -231,6 +234,7 @@ class IdsLeg(object):
             ids = [f.id for f in db.all_features()]
             return Failure("an id attribute with several values was accepted; stored ids %r" % ids, sig={"kind": "multi-accepted"})
         k = case.get("split") or 0
+        deleted = None
         replace_tail = bool(case.get("replace_tail")) and dup and 0 < k < len(recs)
         if 0 < k < len(recs):
             # the tail arrives through one or two update() calls on the same handle with the same id_spec:
@@ -247,6 +251,15 @@ class IdsLeg(object):
             db = gffutils.create_db(p1, dbfn, **ckw)
             for f in list(db.all_features()):
                 db[f.id]  # looked at before the update
+            singles = [i for i in range(k) if keys.count(keys[i]) == 1]
+            if case.get("delete_reopen") and case.get("file_db") and singles:
+                # one feature of the first part (its key requested by no other line) is deleted and the file is reopened
+                # before the tail arrives: numbering continues where it was, whatever the counters are named after
+                deleted = singles[case.get("victim", 0) % len(singles)]
+                db.delete(keys[deleted], make_backup=False)
+                db.conn.close()
+                db = gffutils.FeatureDB(dbfn, keep_order=False)
+                ctx.count("delete and reopen before the tail")
             ukw = dict((a, b) for a, b in kw.items() if a != "keep_order" and not (a == "id_spec" and b is None))
             if replace_tail:
                 ukw["merge_strategy"] = "replace"
@@ -265,8 +278,14 @@ class IdsLeg(object):
                     want.append(kk)
                 last[kk] = line
             lines = [last[kk] for kk in want]
+            if deleted is not None:
+                lines = [l for kk, l in zip(want, lines) if kk != keys[deleted]]
+                want = [kk for kk in want if kk != keys[deleted]]
         else:
-            want = resolve_unique(keys) if dup else keys
+            want = resolve_unique(keys) if dup else list(keys)
+            if deleted is not None:
+                want = want[:deleted] + want[deleted + 1:]
+                lines = lines[:deleted] + lines[deleted + 1:]
         feats = list(db.all_features())
         got = [f.id for f in feats]
         if got != want:
